@@ -53,7 +53,7 @@
 ** bits.  Widening from w to W bits multiplies by 2^(W-w) (zero padding),
 ** narrowing is the arithmetic (floor) shift by w-W bits. */
 #define WIDEN(v, w, W)		((int) ((long long) (v) * (1LL << ((W) - (w)))))
-#define NARROW(v, w, W)		((int) (((long long) (v) - ((((long long) (v)) % (1LL << ((w) - (W))) + (1LL << ((w) - (W)))) % (1LL << ((w) - (W))))) / (1LL << ((w) - (W)))))
+#define NARROW(v, w, W)		((int) (v) >> ((w) - (W)))	/* arithmetic shift: floor, i.e. the w-W low bits are dropped */
 
 /* float/double rules */
 #define INTMAX_W(w)		((w) == 32 ? 2147483647 : ((1 << ((w) - 1)) - 1))
